@@ -19,7 +19,7 @@ let run fs = match fs with
   | "fd" :: id :: misc :: mf :: helo :: ip :: rcpts :: dns :: mx :: files when mx_ok mx ->
       (match bytes_of_hex id with
        | [i] -> Some (rf_case i (bytes_of_hex misc) (bytes_of_hex mf) (bytes_of_hex helo) (bytes_of_hex ip)
-                        (bytes_of_hex rcpts) (bytes_of_hex dns) (List.map bytes_of_hex files))
+                        (bytes_of_hex rcpts) (bytes_of_hex dns) (bytes_of_hex mx) (List.map bytes_of_hex files))
        | _ -> None)
   | _ -> None
 
@@ -70,7 +70,7 @@ let spec c o = match c with
       (match bytes_of_hex id with
        | [i] ->
            (match spec_ok_rf i (bytes_of_hex misc) (bytes_of_hex mf) (bytes_of_hex helo) (bytes_of_hex ip)
-                    (bytes_of_hex rcpts) (bytes_of_hex dns) (List.map bytes_of_hex files) (parse_obs o) with
+                    (bytes_of_hex rcpts) (bytes_of_hex dns) (bytes_of_hex mx) (List.map bytes_of_hex files) (parse_obs o) with
             | VPre -> "pre" | VOk -> "ok" | VBad -> "bad")
        | _ -> "BADCASE")
   | _ -> "BADCASE"
